@@ -294,7 +294,7 @@ def check(run):
         tall[::3] = data
         ro = data.copy()
         ro.flags.writeable = False
-        variants = {'fortran': np.asfortranarray(data), 'transposed-source': np.ascontiguousarray(data.T).T, 'column-slice': wide[:, 2:11], 'row-strided': tall[::3], 'double-reversed': data[::-1].copy()[::-1], 'read-only': ro, 'nested-list': data.tolist()}
+        variants = {'int8-view': data.view(np.int8), 'int8-copy': data.astype(np.int8), 'fortran': np.asfortranarray(data), 'transposed-source': np.ascontiguousarray(data.T).T, 'column-slice': wide[:, 2:11], 'row-strided': tall[::3], 'double-reversed': data[::-1].copy()[::-1], 'read-only': ro, 'nested-list': data.tolist()}
         pos0, vel0 = pack9.unpack_pack9(data, 500.0, 1000.0, float_dtype=np.float64)
         for label, arg in variants.items():
             run.ev()
@@ -378,6 +378,24 @@ def check(run):
                 run.violation('pack9-count', dict(stream='read_asdf: one cell of 2^21+70001 particles', got=len(t), expected=nbig + 50, columns=t.colnames))
                 continue
             compare(run, data, 2000.0, 1000.0, dtype, np.asarray(t['pos']) if 'pos' in load else None, np.asarray(t['vel']) if 'vel' in load else None, nbig + 50, 'read_asdf:one-huge-cell', 'read_asdf')
+        # the same records stored blsc-compressed in many small frames (so that frame boundaries and length prefixes fall on
+        # every possible offset of the file layer's read chunks)
+        small = data[: 9 * 60001 // 9]
+        small = data[:200001]
+        fn2 = os.path.join(d, 'small_frames.asdf')
+        write_asdf(fn2, dict(header=dict(BoxSize=2000.0, VelZSpace_to_kms=1000.0, ppd=6912.0, OutputType='TimeSlice'), data=dict(pack9=small)), 'blsc', compression_kwargs=dict(compression_block_size=99))
+        run.ev()
+        try:
+            t = RA.read_asdf(fn2, load=['pos', 'vel'], dtype=np.float64, verbose=False)
+        except Exception as e:
+            run.violation('pack9-read-asdf-raises-' + type(e).__name__, dict(error=f'{type(e).__name__}: {e}'[:200], stream='read_asdf: blsc, 99-byte blocks', nrec=len(small)))
+        else:
+            run.nt(('read_asdf-small-frames',))
+            nexp = int((small[:, 0] != 0xFF).sum())
+            if len(t) != nexp:
+                run.violation('pack9-count', dict(stream='read_asdf: blsc, 99-byte blocks', got=len(t), expected=nexp))
+            else:
+                compare(run, small, 2000.0, 1000.0, np.float64, np.asarray(t['pos']), np.asarray(t['vel']), nexp, 'read_asdf:small-frames', 'read_asdf')
     finally:
         shutil.rmtree(d, ignore_errors=True)
 
